@@ -83,15 +83,38 @@ def dotL : List Rat → List Rat → Rat
   | a :: as, b :: bs => a * b + dotL as bs
   | _, _ => 0
 
-/-- `Vector::Norm() = sqrt(Dot(*this))` -/
-def normL (sq : Rat → Rat) (v : List Rat) : Rat := sq (dotL v v)
+/-- `std::frexp(x, &exponent)` for `x > 0`: the integer `e` with `x = m·2^e`, `m ∈ [1/2, 1)`,
+    i.e. the smallest `e` with `x < 2^e`.  (No theorem depends on which `e` it is.) -/
+def frexpExp (x : Rat) : Int :=
+  let e0 : Int := (Nat.log2 x.num.toNat : Int) - (Nat.log2 x.den : Int)
+  if x < pow2 e0 then e0 else e0 + 1
+
+/-- `Vector::Norm()` since 8a680df: the components are scaled by the power of two `2^-e` of the largest
+    one (`std::ldexp`, exact), the squares summed, and the root scaled back: `2^e · sqrt(Σ (c_i/2^e)²)`.
+    Over the rationals this is `sqrt(Σ c_i²)` (theorem `norm3_scaled_noop`); the scaling only keeps the
+    floating-point squares away from overflow and underflow.  `0` for the zero vector. -/
+def normL (sq : Rat → Rat) (v : List Rat) : Rat :=
+  let largest := v.foldl (fun m c => rmax m (rabs c)) 0
+  if largest = 0 then 0
+  else
+    let p := pow2 (frexpExp largest)
+    let w := v.map (· / p)
+    p * sq (dotL w w)
 
 /-- `Vector::Normalized()` / `Normalize()`: every component divided by the norm.
     `none`: the zero vector (and the empty one) divides 0 by 0 in the C++ — NaN components, not modelled. -/
 def normalizeL (sq : Rat → Rat) (v : List Rat) : Option (List Rat) :=
   if dotL v v = 0 then none else some (v.map (· / normL sq v))
 
-def norm3 (sq : Rat → Rat) (v : V3) : Rat := sq (v.dot v)
+/-- largest absolute component, as the loop of `Vector::Norm()` forms it -/
+def maxAbs3 (v : V3) : Rat := rmax (rmax (rmax 0 (rabs v.x)) (rabs v.y)) (rabs v.z)
+
+/-- the 3-D instance of `Vector::Norm()` (as coded since 8a680df, see `normL`) -/
+def norm3 (sq : Rat → Rat) (v : V3) : Rat :=
+  if maxAbs3 v = 0 then 0
+  else
+    let p := pow2 (frexpExp (maxAbs3 v))
+    p * sq ((v.divs p).dot (v.divs p))
 
 /-- 3-D normalisation, total: used only where the caller has excluded the zero vector or does
     not use the result in that case (mirrors the C++ data flow). -/
